@@ -227,6 +227,34 @@ def column_rule(rep, g):
     rep.floor("C04.f", n, 5)
 
 
+def icu_flush_rule(rep, rid="C04.g"):
+    f = core.library_facts()
+    rep.rule(rid, "block-wise conversion never tells ICU that the input has ended: XMLTranscoder's transcodeFrom / transcodeTo are "
+             "called once per buffer block, so every ucnv_toUnicode / ucnv_fromUnicode call made by ICUTranscoder passes flush = "
+             "false (argument 7) — with flush set ICU treats a multi-byte character cut by the end of the block as truncated input "
+             "and substitutes it, so a document in an ICU-handled multi-byte encoding decodes differently depending on where the "
+             "48K refill or a short read happens to fall")
+    n = 0
+    for x in f.kind("call"):
+        c = x["x"]
+        if not (c[1].startswith("ucnv_toUnicode") or c[1].startswith("ucnv_fromUnicode")) or x["_fn"].get("cls") != "ICUTranscoder":
+            continue
+        if len(c[3]) < 8:
+            raise AnalysisBroken("%s: unexpected argument list of %s" % (x["_fn"]["q"], c[1]))
+        n += 1
+        fl = c[3][6]
+        while fl[0] == "cast":
+            fl = fl[2]
+        ok = fl == ["i", 0]
+        rep.ob(rid, "%s@%s" % (x["_fn"]["q"], c[1].rsplit("_", 1)[0]), ok, "flush = false" if ok else
+               "%s (line %s) calls %s with flush = %s: each block is converted as if it were the end of the input" % (
+                   x["_fn"]["q"], x.get("l"), c[1], core.sx_str(c[3][6])), "%s:%s" % (x["_fn"]["file"], x.get("l", 0)))
+    if n == 0:
+        rep.notes.append("%s: no ICU conversion calls in this build configuration (ICU transcoder not compiled)" % rid)
+        return
+    rep.floor(rid, n, 3)
+
+
 def run(rep):
     tus = [os.path.join(core.REPO, READER_TU)]
     g = core.run_xa(tus, cfg="^XMLReader::", flat=False)
@@ -295,6 +323,7 @@ def run(rep):
     from . import C05
     C05.utf8_advance_rule(rep, "C04.e")
     column_rule(rep, g)
+    icu_flush_rule(rep)
     rep.undecided += ["equality of the event stream across partitions of the input (refill arithmetic, transcoders' bytesEaten): value-level",
                       "error positions across source types"]
     rep.assumptions += ["refreshCharBuffer() true guarantees only one available character (it returns true with just the spare character)",
